@@ -250,6 +250,10 @@ def ob_block(blocks_mod, name, index):
         if ob.kind.startswith("pre-sat"):
             return {"status": "error", "backend": backend, "detail": "vacuity guard: the block precondition of %s is unsatisfiable" % name}
         return proved(backend, "branch unreachable on this (joined) path")
+    if verdict == "refuted" and opaque:
+        # the block was executed with unconstrained values for expressions outside the subset: a counter-model may be an artefact of that over-approximation
+        return undecided("block contract of %s not established (%s finds a counter-model, but expressions %s were over-approximated by unconstrained values): %s"
+                         % (name, backend, opaque[:3], ob.name), backend=backend)
     if verdict == "refuted":
         return violated("block contract of %s refuted by %s: %s" % (name, backend, ob.name), backend=backend,
                         replay={"confirmed": False, "solver_model": str(model)[:3000] if model is not None else None, "block_source": src},
